@@ -499,6 +499,7 @@ def sim_stream(rng, n_sims, n_calls, tier, mk_case):
         if c["impl"]["sched"] is None or any(abs(x - y) > 1e-9 * max(1, abs(x)) for x, y in zip(c["impl"]["sched"], out)):
             c["sim_violation"] = None
             c["replay_mismatch"] = True
+            c["sim_out"] = out
         cases.append(c)
     return cases
 
